@@ -720,9 +720,29 @@ pub fn gen_jobs(vs: u64, tier: &str, profile: &str) -> Vec<Job> {
     // several evaluators on one worker thread: earlier ones (other flops) are
     // peeked at and abandoned, then one is drained; its players hold cards of
     // the earlier flops (state a change might keep per thread must not leak)
-    let nseq = if quick { 24 } else { 300 };
+    let nseq = if quick { 48 } else { 600 };
     for _ in 0..nseq {
-        let f1 = gen_flop(&mut rng);
+        // the first abandoned evaluator sits on trips or a paired flop half of the time:
+        // a later player holding those cards makes any stale count overflow
+        let f1 = match rng.below(4) {
+            0 | 1 => {
+                let r = rng.below(13) as u8;
+                let mut suits = [0u8, 1, 2, 3];
+                rng.shuffle(&mut suits);
+                [r * 4 + suits[0], r * 4 + suits[1], r * 4 + suits[2]]
+            }
+            2 => {
+                let r = rng.below(13) as u8;
+                let o = loop {
+                    let o = rng.below(52) as u8;
+                    if o / 4 != r {
+                        break o;
+                    }
+                };
+                [r * 4 + rng.below(2) as u8, r * 4 + 2 + rng.below(2) as u8, o]
+            }
+            _ => gen_flop(&mut rng),
+        };
         let mut prelude = vec![];
         for _ in 0..rng.range(1, 3) {
             let pf = if prelude.is_empty() { f1 } else { gen_flop(&mut rng) };
